@@ -3,24 +3,24 @@
 CORRESPONDENCES = {
     # K-ctl: the real async_launch::launch under harness-dictated schedules vs the L6 state machine
     # K-codec: Value::to_json / value_util::from_json_value vs toJson / fromJson
-    "codec": {"sub": "codec", "cases": {"quick": 12000, "thorough": 400000}, "shards": {"quick": 4, "thorough": 16}},
+    "codec": {"sub": "codec", "cases": {"quick": 30000, "thorough": 400000}, "shards": {"quick": 16, "thorough": 16}},
     # K-ops: Crossover::crossover / mutation::mutate in operation sequences sharing one PathContext vs crossAcc / mutAcc
-    "ops": {"sub": "ops", "cases": {"quick": 3000, "thorough": 60000}, "shards": {"quick": 6, "thorough": 16}},
+    "ops": {"sub": "ops", "cases": {"quick": 8000, "thorough": 60000}, "shards": {"quick": 16, "thorough": 16}},
     # K-algo: the real AlgoContext driven directly; every in-run crossover/mutation call (hook H3) vs crossAcc / mutAcc
-    "algo": {"sub": "algo", "cases": {"quick": 240, "thorough": 4000}, "shards": {"quick": 6, "thorough": 16}},
+    "algo": {"sub": "algo", "cases": {"quick": 480, "thorough": 4000}, "shards": {"quick": 16, "thorough": 16}},
     # K-spec: spec_util::from_yaml_str on generated YAML text vs build
-    "spec": {"sub": "spec", "cases": {"quick": 12000, "thorough": 300000}, "shards": {"quick": 6, "thorough": 16}},
+    "spec": {"sub": "spec", "cases": {"quick": 30000, "thorough": 300000}, "shards": {"quick": 16, "thorough": 16}},
     # K-proc: the real cambrian binary with scripted objprog children (release files, /proc scan) vs L7/L8/L9
-    "proc": {"sub": "proc", "cases": {"quick": 96, "thorough": 1600}, "shards": {"quick": 8, "thorough": 16}},
+    "proc": {"sub": "proc", "cases": {"quick": 128, "thorough": 1600}, "shards": {"quick": 16, "thorough": 16}},
     # K-sel / K-live / K-mix / benchmark battery (C17): select_ref frequencies vs selPmf, mutation liveness, mixed offspring, known-optimum runs
-    "dir": {"sub": "dir", "cases": {"quick": 336, "thorough": 4000}, "shards": {"quick": 8, "thorough": 16}},
+    "dir": {"sub": "dir", "cases": {"quick": 336, "thorough": 4000}, "shards": {"quick": 16, "thorough": 16}},
     # twin runs (C09): the same scripted run twice in one process and once in a fresh process
-    "twin": {"sub": "twin", "cases": {"quick": 48, "thorough": 600}, "shards": {"quick": 8, "thorough": 16}},
+    "twin": {"sub": "twin", "cases": {"quick": 96, "thorough": 600}, "shards": {"quick": 16, "thorough": 16}},
     # K-pop: the real AlgoContext driven directly; the whole ranked population compared with the L5 model after every operation
-    "pop": {"sub": "pop", "cases": {"quick": 160, "thorough": 4000}, "shards": {"quick": 8, "thorough": 16}},
+    "pop": {"sub": "pop", "cases": {"quick": 400, "thorough": 4000}, "shards": {"quick": 16, "thorough": 16}},
     # K-run: whole runs through sync_launch::launch (threaded and current-thread launcher) with generated criteria lists vs the launch-layer model
-    "run": {"sub": "run", "cases": {"quick": 240, "thorough": 6000}, "shards": {"quick": 8, "thorough": 16}},
-    "ctl": {"sub": "ctl", "cases": {"quick": 1500, "thorough": 40000}, "shards": {"quick": 4, "thorough": 16}},
+    "run": {"sub": "run", "cases": {"quick": 480, "thorough": 6000}, "shards": {"quick": 16, "thorough": 16}},
+    "ctl": {"sub": "ctl", "cases": {"quick": 6000, "thorough": 40000}, "shards": {"quick": 16, "thorough": 16}},
 }
 
 
